@@ -41,12 +41,12 @@ var bodyPkgs = map[string]bool{
 	"strings": true, "strconv": true, "time": true, "unicode/utf8": true, "unicode": true, "errors": true, "math": true,
 	"github.com/google/fhir/go/proto/google/fhir/proto/r4/core/datatypes_go_proto": true,
 	"github.com/shopspring/decimal": true,
-	"net/url": true, "path": true, "encoding/base64": true, "slices": true,
+	"net/url": true, "path": true, "encoding/base64": true, "slices": true, "unicode/utf16": true,
 }
 
 var execStdPkgs = map[string]bool{
 	"time": true, "net/url": true, "path": true, "encoding/base64": true,
-	"strings": true, "strconv": true, "unicode": true, "slices": true, "sort": true, "cmp": true,
+	"strings": true, "strconv": true, "unicode": true, "slices": true, "sort": true, "cmp": true, "unicode/utf16": true,
 }
 
 func (p *Program) isExecuted(pkgPath string) bool {
